@@ -511,6 +511,52 @@ def work(case):
     return res
 
 
+def _dom_hash(doms):
+    import numpy as np
+
+    return [[field_hash(np.array([list(map(float, p)) for p in f], dtype=np.float64).reshape(-1, 2)) for f in dom] for dom in doms]
+
+
+def history_work(chunk):
+    """Call history inside ONE process: each case is built, built again with the very same argument
+    objects, another case is built, and the first is built a third time; the first result is kept
+    alive and re-hashed at the end, and the argument polygons are compared with a copy taken before
+    the first call.  On a difference the land / no-go predicate is evaluated on the later result."""
+    import copy
+    import random
+
+    os.environ["OMP_NUM_THREADS"] = "1"
+    out = []
+    for j, case in enumerate(chunk):
+        other = chunk[j - 1] if len(chunk) > 1 else case
+        rec = {}
+        try:
+            args0 = copy.deepcopy((case["prop"], case["nogo"]))
+            with ghelib.quiet():
+                r1, _ = call_impl(case)
+                h1 = _dom_hash(r1)
+                r2, _ = call_impl(case)
+                h2 = _dom_hash(r2)
+                try:
+                    call_impl(other)
+                except Exception:  # noqa: BLE001
+                    pass
+                r3, _ = call_impl(case)
+                h3 = _dom_hash(r3)
+                h1b = _dom_hash(r1)
+            rec = {"h1": h1, "fails": [], "inputs_changed": (case["prop"], case["nogo"]) != args0}
+            fresh = {**case, "prop": args0[0], "nogo": args0[1]}
+            for name, h, r in (("second build", h2, r2), ("third build (after another lot)", h3, r3), ("first build, re-read after later builds", h1b, r1)):
+                if h != h1:
+                    doms = [[[(float(x), float(y)) for x, y in f] for f in dom] for dom in r]
+                    fails, _ = predicate(fresh, doms, {}, random.Random(case_id(case)))
+                    rec["fails"].append((name, fails[:2]))
+        except Exception as e:  # noqa: BLE001
+            rec = {"err": type(e).__name__}
+        out.append(rec)
+    return out
+
+
 # ----------------------------------------------------------------------------- model side
 def parse_h(s):
     """'ok 3:hash:0,5:hash:1|…' / 'raise:X' -> (err, shape, hash, descpos)"""
@@ -1125,6 +1171,28 @@ def run(ctx: core.Ctx):
             broke("descriptor-correspondence", case, {"impl": res["desc_pos"][:3], "model": mdesc[:3]})
         else:
             ctx.count("descriptor lists compared", len(mdesc))
+    # ---- call histories in one process
+    hist_idx = [i for i, (c, r) in enumerate(zip(cases, results)) if r["err"] is None and r.get("points", 0) <= 40000 and well_formed(c)]
+    hist_idx = hist_idx[:: max(1, len(hist_idx) // (120 if quick else 800))]
+    chunks = [hist_idx[j:j + 6] for j in range(0, len(hist_idx), 6)]
+    for ch, hr in zip(chunks, core.pool_map(history_work, [[cases[i] for i in ch] for ch in chunks]) if chunks else []):
+        for i, rec in zip(ch, hr):
+            case = cases[i]
+            ctx.count("history: build, build again, other lot, build again")
+            ctx.case(("history", case_id(case)), True)
+            if "err" in rec:
+                broke("history-correspondence", case, {"a repeated build raised": rec["err"]})
+                continue
+            if rec["h1"] != results[i]["hash"]:
+                broke("history-correspondence", case, "first build in the history process differs from the single build")
+            if rec["inputs_changed"]:
+                broke("history-correspondence", case, "the caller's property / no-go polygons were modified in place")
+            for name, fails in rec["fails"]:
+                if fails:
+                    kind, what = fails[0]
+                    ctx.finding(f"history-{kind}-{case_id(case)}", f"{name} of the same lot in one process: {what}", {"case": case, "kind": kind, "history": name})
+                else:
+                    broke("history-correspondence", case, f"{name} differs from the first build of the same lot")
     for k, v in agg.items():
         ctx.count("points: " + k, v)
     if not ctx.replay:
